@@ -18,14 +18,15 @@ verus! {
 //@path std::fs::remove_dir_all => fs_remove_dir_all
 //@path KeyspaceCreateOptions::from_kvs => CreateOptions::from_kvs
 //@path KeyspaceCreateOptions => CreateOptions
-//@world is_deleted.store meta_keyspace.resolve_id fs_remove_dir_all keyspaces_lock.insert CreateOptions::from_kvs keyspaces.get keyspace_id_counter.next keyspace_id_counter.set meta_keyspace.create_keyspace
+//@world is_deleted.store meta_keyspace.resolve_id fs_remove_dir_all keyspaces_lock.insert CreateOptions::from_kvs keyspaces.get keyspaces.write .get keyspace_id_counter.next keyspace_id_counter.set meta_keyspace.create_keyspace
 
 pub mod atomic_shim { pub use std::sync::atomic::Ordering; }
 // ---- ghost world of this unit: deleted flags and the meta dictionary
 pub struct World { pub deleted: Map<int, bool>, pub names: Set<Seq<u8>>, pub meta_removed: Seq<Seq<u8>>,
     pub removed_dirs: Seq<int>, pub meta_names: Map<u64, Seq<u8>>, pub registered: Map<Seq<u8>, RegG>, pub opts_in_meta: Map<u64, CreateOptions>,
     pub next_ks_id: u64,              // Database.keyspace_id_counter: next internal keyspace id to hand out
-    pub journal_ids: Set<u64> }       // keyspace ids that occur in a record of a journal file that still exists
+    pub journal_ids: Set<u64>,        // keyspace ids that occur in a record of a journal file that still exists
+    pub absent_under_write_lock: Set<Seq<u8>> }   // names found absent from the dictionary inside the CURRENT write-lock critical section
 pub struct AtomicBool { pub id: Ghost<int> }
 impl AtomicBool {
     #[verifier::external_body]
@@ -227,16 +228,32 @@ pub open spec fn reg_of(k: Keyspace) -> RegG {
 }
 pub struct KsLock { pub dummy: u8 }
 pub struct KsLockWriteResult { pub dummy: u8 }
-impl KsLock { #[verifier::external_body] pub fn write(&self) -> (r: KsLockWriteResult) { unimplemented!() } }
+impl KsLock {
+    // RwLock::write: a new exclusive critical section begins (whatever was observed before it may have changed meanwhile)
+    #[verifier::external_body] pub fn write(&self, Tracked(w): Tracked<&mut World>) -> (r: KsLockWriteResult)
+        ensures *final(w) == (World { absent_under_write_lock: Set::empty(), ..*old(w) }) { unimplemented!() }
+    #[verifier::external_body] pub fn read(&self) -> (r: KsLockReadResult) { unimplemented!() }
+}
+pub struct KsLockReadResult { pub dummy: u8 }
+pub struct KsReadGuard { pub dummy: u8 }
+impl KsLockReadResult { #[verifier::external_body] pub fn expect(self, m: &str) -> (r: KsReadGuard) { unimplemented!() } }
+impl KsReadGuard {
+    // a lookup under the SHARED lock: the answer is only a snapshot (nothing is recorded as established)
+    #[verifier::external_body]
+    pub fn get(&self, name: &str, Tracked(w): Tracked<&mut World>) -> (r: Option<&Keyspace>)
+        ensures *final(w) == *old(w),
+            r matches Some(k) ==> old(w).registered.dom().contains(str_bytes(name)) && reg_of(*k) == old(w).registered[str_bytes(name)],
+    { unimplemented!() }
+}
 // a poisoned RwLock panics here in the real code (another thread panicked while holding it): not modelled
 impl KsLockWriteResult { #[verifier::external_body] pub fn expect(self, m: &str) -> (r: KsWriteGuard) { unimplemented!() } }
 impl KsWriteGuard {
     // HashMap<KeyspaceKey, Keyspace>::get through the write guard: the dictionary of registered handles
     #[verifier::external_body]
     pub fn get(&self, name: &str, Tracked(w): Tracked<&mut World>) -> (r: Option<&Keyspace>)
-        ensures *final(w) == *old(w),
+        ensures r is Some ==> *final(w) == *old(w),
             r matches Some(k) ==> old(w).registered.dom().contains(str_bytes(name)) && reg_of(*k) == old(w).registered[str_bytes(name)],
-            r is None ==> !old(w).registered.dom().contains(str_bytes(name)),
+            r is None ==> !old(w).registered.dom().contains(str_bytes(name)) && *final(w) == (World { absent_under_write_lock: old(w).absent_under_write_lock.insert(str_bytes(name)), ..*old(w) }),
     { unimplemented!() }
 }
 /// P-ID (C12): every id that names a keyspace in the meta keyspace, and every id that still occurs in a journal record,
@@ -264,6 +281,8 @@ impl MetaKeyspace {
     #[verifier::external_body]
     pub fn create_keyspace(&self, id: InternalKeyspaceId, name: &KeyspaceKey, handle: Keyspace, guard: KsWriteGuard, Tracked(w): Tracked<&mut World>) -> (r: Result<(), Error>)
         requires !old(w).meta_names.dom().contains(id) && !old(w).journal_ids.contains(id), // [C12:P-ID-new-keyspace-gets-a-never-used-id]
+            // check-then-act: the name was found absent inside the same exclusive critical section that registers it
+            old(w).absent_under_write_lock.contains(name.s@), // [C12:registered-only-after-an-absence-check-under-the-same-write-lock] [C16:registered-only-after-an-absence-check-under-the-same-write-lock]
             handle.0.t.id == id, handle.0.t.name.s@ == name.s@,
         ensures r is Ok ==> *final(w) == (World { registered: old(w).registered.insert(name.s@, reg_of(handle)), names: old(w).names.insert(name.s@),
                     meta_names: old(w).meta_names.insert(id, name.s@), opts_in_meta: old(w).opts_in_meta.insert(id, handle.0.t.config), ..*old(w) }),
@@ -325,7 +344,7 @@ impl std::ops::Deref for Keyspace { type Target = KeyspaceInner; fn deref(&self)
     ensures
         ids_below_counter(*final(w)), // [C12:P-ID-kept-by-keyspace-creation]
         // an existing name: the registered handle is returned, the caller's options are ignored, nothing changes (C16, C12)
-        old(w).registered.dom().contains(str_bytes(name)) ==> r is Ok && reg_of(r->Ok_0) == old(w).registered[str_bytes(name)] && *final(w) == *old(w), // [C16:existing-name-returns-the-registered-handle-options-ignored] [C12:existing-name-returns-existing-keyspace]
+        old(w).registered.dom().contains(str_bytes(name)) ==> r is Ok && reg_of(r->Ok_0) == old(w).registered[str_bytes(name)] && *final(w) == (World { absent_under_write_lock: final(w).absent_under_write_lock, ..*old(w) }), // [C16:existing-name-returns-the-registered-handle-options-ignored] [C12:existing-name-returns-existing-keyspace]
         // a new name: fresh id, shared flag and lock, tree configured with the handle's own options, assigner's verdict installed
         !old(w).registered.dom().contains(str_bytes(name)) && r is Ok ==> r->Ok_0.0.t.id == old(w).next_ks_id, // [C12:P-ID-new-keyspace-gets-the-counter-value]
         !old(w).registered.dom().contains(str_bytes(name)) && r is Ok ==> final(w).registered.dom().contains(str_bytes(name)) && final(w).registered[str_bytes(name)] == reg_of(r->Ok_0), // [C12:new-keyspace-registered-under-its-name]
